@@ -157,18 +157,26 @@ pub struct Menus {
 }
 
 impl Menus {
+    /// Quick tier: reduced menus only for types with more than 7 fields
+    /// (RRSIG); compact: always.
     fn reduced(&self, nfields: usize) -> bool {
         match self.tier {
             Tier::Compact => true,
-            Tier::Quick => nfields > 4,
+            Tier::Quick => nfields > 7,
             Tier::Thorough => false,
         }
+    }
+    /// Thorough tier: extended menus for types with at most 7 fields.
+    fn extended(&self, nfields: usize) -> bool {
+        self.tier == Tier::Thorough && nfields <= 7
     }
     pub fn u8s(&self, nfields: usize) -> Vec<u8> {
         if self.tier == Tier::Compact {
             vec![1]
         } else if self.reduced(nfields) {
             vec![0, 255]
+        } else if self.extended(nfields) {
+            vec![0, 1, 127, 128, 255]
         } else {
             vec![0, 1, 255]
         }
@@ -178,6 +186,8 @@ impl Menus {
             vec![1, 256]
         } else if self.reduced(nfields) {
             vec![0, 256, 65535]
+        } else if self.extended(nfields) {
+            vec![0, 1, 255, 256, 0x1234, 32768, 65535]
         } else {
             vec![0, 1, 255, 256, 65535]
         }
@@ -187,16 +197,26 @@ impl Menus {
             vec![1]
         } else if self.reduced(nfields) {
             vec![1, 0x8000_0000]
+        } else if self.extended(nfields) {
+            vec![0, 1, 0x0102_0304, 0x7FFF_FFFF, 0x8000_0000, 0xFFFF_FFFF]
         } else {
             vec![0, 1, 0x8000_0000, 0xFFFF_FFFF]
         }
     }
     pub fn names(&self, nfields: usize) -> Vec<NameSpec> {
-        let all = name_specs();
+        let mut all = name_specs();
         if self.tier == Tier::Compact {
             vec![all[1].clone(), all[2].clone()]
         } else if self.reduced(nfields) {
             vec![all[0].clone(), all[2].clone(), all[3].clone()]
+        } else if self.extended(nfields) {
+            all.push(NameSpec { tag: "*.a.", labels: vec![b"*".to_vec(), b"a".to_vec()] });
+            all.push(NameSpec { tag: "X63.", labels: vec![vec![b'X'; 63]] });
+            all.push(NameSpec {
+                tag: "a.B.c\\.D.",
+                labels: vec![b"a".to_vec(), b"B".to_vec(), b"c.".to_vec(), b"D\x00\xff".to_vec()],
+            });
+            all
         } else {
             all
         }
